@@ -4,7 +4,7 @@
    with the fragment counters of fragment_syntax.py), clip and intlog2 from Gen/VC2Math.v (regenerated from the
    source on every run).  The inverse wavelet transform is property C11: here its output is ARBITRARY. *)
 From Coq Require Import ZArith List Bool.
-From VC2 Require Import Base.PyZ Gen.StateRec Gen.VC2Math Model.Picture Proofs.PictureProofs.
+From VC2 Require Import Base.PyZ Gen.StateRec Gen.VC2Math Gen.VideoParams Model.Picture Proofs.PictureProofs Proofs.PictureBridge.
 Import ListNotations.
 Open Scope Z_scope.
 
@@ -60,6 +60,42 @@ Theorem C09_count : forall us pics,
   Forall wf_unit us -> run us = Some pics -> length pics = length (coded_pictures us).
 Proof. exact (fun us pics H R => f_equal (@length Z) (run_spec us pics H R)). Qed.
 
+(* ---- tie T: the same statements about the functions TRANSLATED from pseudocode/video_parameters.py
+   (Gen/VideoParams.v, regenerated from the source on every run; an edit there breaks these obligations) ---- *)
+
+(* the hand model of picture_dimensions / video_depth (mk_dims; colour-difference format 1 = 4:2:2, 2 = 4:2:0;
+   picture_coding_mode 1 = fields) equals, for ALL states and video parameters, what the source's
+   set_coding_parameters stores in luma_width/height, color_diff_width/height, luma_depth, color_diff_depth;
+   and set_coding_parameters never raises *)
+Theorem C09_dimensions_and_depth_match_source : forall st vp,
+  mk_dims (st_frame_width vp) (st_frame_height vp) (st_color_diff_format_index vp) (st_picture_coding_mode st)
+          (st_luma_excursion vp) (st_color_diff_excursion vp)
+  = dims_of_state (VideoParams.set_coding_parameters st vp) /\
+  VideoParams.set_coding_parameters_dom st vp = true.
+Proof. exact (fun st vp => conj (mk_dims_matches_source st vp) (set_coding_parameters_dom_true st vp)). Qed.
+
+(* C09_depth for the depths the source computes *)
+Theorem C09_depth_source : forall st vp,
+  1 <= st_luma_excursion vp -> 1 <= st_color_diff_excursion vp ->
+  let s' := VideoParams.set_coding_parameters st vp in
+  1 <= st_luma_depth s' /\ 1 <= st_color_diff_depth s'.
+Proof. exact source_depths_ge1. Qed.
+
+(* C09_shape + C09_range with the width, height and depth the SOURCE computes: for any frame size >= 0, any
+   admitted excursions, any colour format / coding mode, any component and ANY transform output at least as
+   large as the component: exactly height x width samples, each in [0, 2^depth - 1] *)
+Theorem C09_component_well_formed_source : forall st vp c idwt_out,
+  0 <= st_frame_width vp -> 0 <= st_frame_height vp ->
+  1 <= st_luma_excursion vp -> 1 <= st_color_diff_excursion vp ->
+  let d := dims_of_state (VideoParams.set_coding_parameters st vp) in
+  comp_height d c <= Z.of_nat (length idwt_out) ->
+  Forall (fun r => comp_width d c <= Z.of_nat (length r)) idwt_out ->
+  let out := finish_component d c idwt_out in
+  length out = Z.to_nat (comp_height d c) /\
+  rect (Z.to_nat (comp_width d c)) out /\
+  Forall (Forall (fun v => 0 <= v <= 2 ^ comp_depth d c - 1)) out.
+Proof. exact component_well_formed_source. Qed.
+
 (* non-vacuity *)
 Example C09_example_units :
   run [UOther; UPicture 7; UFragFirst 8 4; UFragData 8 3; UOther; UFragData 8 1; UPicture 9] = Some [7; 8; 9] /\
@@ -69,4 +105,11 @@ Proof. vm_compute. repeat split; reflexivity. Qed.
 Example C09_example_component :
   let d := mk_dims 3 2 0 0 255 255 in
   finish_component d Str_Y [[1000; -1000; 5; 0]; [0; 1; 2; 3]; [9; 9; 9; 9]] = [[255; 0; 133]; [128; 129; 130]].
+Proof. vm_compute. reflexivity. Qed.
+
+Example C09_example_source :
+  let vp := set_st_color_diff_excursion (set_st_luma_excursion (set_st_color_diff_format_index
+              (set_st_frame_height (set_st_frame_width empty_pystate 7) 6) 2) 1023) 255 in
+  let st := set_st_picture_coding_mode empty_pystate 1 in
+  dims_list_of (dims_of_state (VideoParams.set_coding_parameters st vp)) = [7; 3; 3; 1; 10; 8].
 Proof. vm_compute. reflexivity. Qed.
